@@ -120,6 +120,18 @@ func zzAssertMsg(c bool, msg string, detail string) {
 
 func zzCover(msg string) {}
 
+// branch-free Boolean connectives (under the interpreter they build one term
+// instead of forking the path)
+func zzAnd(a, b bool) bool     { return a && b }
+func zzOr(a, b bool) bool      { return a || b }
+func zzImplies(a, b bool) bool { return !a || b }
+func zzIteInt(c bool, a, b int) int {
+	if c {
+		return a
+	}
+	return b
+}
+
 func zzSymbolic() bool { return false }
 
 func zzParam(name string, def int) int {
